@@ -43,6 +43,9 @@ Theorem c15_no_shared_synchronisation :
   Gen.SyncOps.sync_http_endpoint_handler = ""%string /\
   Gen.SyncOps.sync_new_server_connection = ""%string /\
   Gen.SyncOps.sync_new_client_connection = ""%string /\
+  Gen.SyncOps.sync_server_handshake = ""%string /\ Gen.SyncOps.sync_server_upgrade = ""%string /\
+  Gen.SyncOps.sync_client_handshake = ""%string /\ Gen.SyncOps.sync_client_upgrade = ""%string /\
+  Gen.SyncOps.sync_client_start_tls = ""%string /\
   Gen.SyncOps.sync_listener_accept = "recv:l.shutdown;recv:l.shutdown;select;select"%string.
 Proof. repeat split; reflexivity. Qed.
 Print Assumptions c15_no_shared_synchronisation.
